@@ -6,4 +6,5 @@ for f in sys.argv[1:]:
     print(' clause',r['clause'],'tape',len(r.get('tape') or []),'orig',r.get('original_tape_len'),'|',r.get('reproduction'),'| tried',r.get('minimiser_candidates'))
     for l in r.get('scenario') or []: print('  ',l)
     for it in (r.get('items') or [])[:12]: print('  ITEM',it['clause'],'step',it.get('step'),it.get('fields'),'\n      ',it['detail'][:1500])
+    for it in (r.get('first_seen') or [])[:6]: print('  FIRST-SEEN (not reproduced by replay)',it['clause'],'step',it.get('step'),it.get('fields'),'\n      ',it['detail'][:1500])
     if r.get('crash'): print(r['crash'][-3000:])
